@@ -25,15 +25,15 @@ type c18Action struct {
 }
 
 type c18Case struct {
-	U        rig.UniverseSpec  `json:"universe"`
-	Cfg      rig.Config        `json:"config"`
-	Subs     []subSpec         `json:"subscriptions"`
-	History  []c18Action       `json:"history"`
-	Upstream string            `json:"upstream_mode"` // stream | complete-early | error-early | close-early | refuse | close-after-upgrade
-	Mode     string            `json:"mode"`          // jitter | directed
-	Wait     string            `json:"wait_point,omitempty"`
-	Until    string            `json:"until_point,omitempty"`
-	Jitter   uint64            `json:"jitter_seed"`
+	U        rig.UniverseSpec `json:"universe"`
+	Cfg      rig.Config       `json:"config"`
+	Subs     []subSpec        `json:"subscriptions"`
+	History  []c18Action      `json:"history"`
+	Upstream string           `json:"upstream_mode"` // stream | complete-early | error-early | close-early | refuse | close-after-upgrade
+	Mode     string           `json:"mode"`          // jitter | directed
+	Wait     string           `json:"wait_point,omitempty"`
+	Until    string           `json:"until_point,omitempty"`
+	Jitter   uint64           `json:"jitter_seed"`
 }
 
 func (c18) ID() string            { return "C18" }
